@@ -184,8 +184,8 @@ CHECKS["C11"] = dict(
                "(<channel><connection id>/ for extension, #/ moved behind the id), expiry = request time + ttl (+-2 s) or none, and must authorize the intended "
                "channel but neither sibling nor parent; non-master / expired / foreign parents must be refused; every mask with the extend bit is refused for "
                "SUBSCRIBE and PUBLISH.",
-    level_note="Trusted: hash.OfString (murmur) for the target hash, the 15-line bit-path recomputation, keys built field by field. Listed finding: ttl so negative "
-               "that request time + ttl precedes 2010-01-01 underflows the 32-bit expiry field.",
+    level_note="Trusted: hash.OfString (murmur) for the target hash, the 15-line bit-path recomputation, keys built field by field. A requested expiry before the key "
+               "format's epoch (2010-01-01) is not representable: such a key must already be expired with the earliest representable expiry.",
     rule="rapid-generated requests; non-trivial = a key was issued from a master, or the request asks for permissions the parent lacks, or a refusal caused by a "
          "parent defect with a well-formed channel; distinct = distinct case value.",
     legs=[dict(name="keygen", test="^(TestProbeTTLUnderflow|TestKeygen)$", quick=dict(n=6000, procs=3, timeout=300), thorough=dict(n=600000, procs=12, timeout=2400)),
